@@ -11,14 +11,15 @@ open Proto SigGen
     stateful (one analysis set-up at a time):
       reset
       fac    <time unit factor>
-      grp    <srcSinDec> <srcWeights> <hbw> <hasE01> <elo> <ehi> <unit>
-      ds     <livetime> <sinTrueDec> <trueEnergy> <mcweight>
+      grp    <srcSinDec> <srcWeights> <hbw> <hasE01> <elo> <ehi> <unit> <src_batch_size> <srcRa> <srcDec>
+      ds     <livetime> <sinTrueDec> <trueEnergy> <mcweight> <true_ra> <true_dec> <ra> <dec>
+      oth    <ds> <field id> <value per event of the dataset>   (a field relocation does not touch)
       flux   <g> <j> <fluxmodel values of the events of dataset j>
-      table                                          -> ds:ev:shg:src,… <normalised weights> <weight sum> | ERR
-      vrange <ds> <lo> <hi> <value of the field per table row>   (one line per configured (dataset, field); none = all valid)
+      table                                          (tableRawB, batched) -> ds:ev:shg:src,… <normalised weights> <weight sum> | ERR
+      vrel   <ds> <ra|dec|sin_dec|o<field id>> <lo> <hi>   (one line per configured (dataset, field); the model relocates and decides)
       akw    <requested totals of the calls sharing one sig_kwargs dictionary> -> mean handed to the generator per call (- = not called)
       agg    <counts> <number of per-dataset generators>  -> n;key=count,… | ERR   (aggregation after the fix)
-      gen    <right01> <n> <us>                      -> n;used;ds=row,row,…|ds=… | ERR
+      gen    <right01> <n> <us>                      -> n;used;ds=row:ra:dec:sin_dec,…|ds=… | ERR   (generateEv)
       mu2flux <mu> <Phi0 per source> <unit per source> -> per-source fluxes;total
 -/
 
@@ -30,7 +31,24 @@ structure St where
   tab : List (Cand × Float) := []
   refN : Float := 0.0
   cdf : List Float := []
-  vr : List (Nat × Float × Float × List Float) := []
+  bss : List Nat := []
+  srcpos : List (List (Float × Float)) := []
+  dirs : List (List (Dir Float)) := []
+  oth : List ((Nat × Nat) × List Float) := []
+  vr : List (Nat × Fld × Float × Float) := []
+
+def St.evData (s : St) : EvData Float where
+  src g k := (s.srcpos[g]?).bind (·[k]?)
+  dir j i := (s.dirs[j]?).bind (·[i]?)
+  oth j i k := ((s.oth.find? (fun x => x.1 == (j, k))).map (·.2)).bind (·[i]?)
+
+def zip4 : List Float → List Float → List Float → List Float → List (Dir Float)
+  | a :: as, b :: bs, c :: cs, d :: ds => ⟨a, b, c, d⟩ :: zip4 as bs cs ds
+  | _, _, _, _ => []
+
+def pFld (s : String) : Fld :=
+  if s == "ra" then .ra else if s == "dec" then .dec else if s == "sin_dec" then .sinDec
+  else .other ((s.drop 1).toString.toNat!)
 
 def St.evs (s : St) (g j : Nat) : List (Ev Float) :=
   let evs := ((s.dss[j]?).map (·.2)).getD []
@@ -65,22 +83,25 @@ def step (s : St) (line : String) : St × String :=
       (s, s!"{fF r.1},{fF r.2},{fF (cosSep (pF a) (pF b) r.1 r.2)},{fF (cosSep (pF c) (pF d) (pF e) (pF f))}")
   | ["reset"] => ({}, "ok")
   | ["fac", x] => ({ s with fac := pF x }, "ok")
-  | ["grp", ss, ws, hbw, hasE, elo, ehi, unit] =>
+  | ["grp", ss, ws, hbw, hasE, elo, ehi, unit, bs, sra, sdec] =>
       let g : Grp Float := ⟨(pList pF ss).zip (pList pF ws), pF hbw,
         if pB hasE then some (pF elo, pF ehi) else none, pF unit⟩
-      ({ s with grps := s.grps ++ [g] }, "ok")
-  | ["ds", lt, ss, es, ms] =>
-      ({ s with dss := s.dss ++ [(pF lt, zip3 (pList pF ss) (pList pF es) (pList pF ms))] }, "ok")
+      ({ s with grps := s.grps ++ [g], bss := s.bss ++ [pN bs],
+                srcpos := s.srcpos ++ [(pList pF sra).zip (pList pF sdec)] }, "ok")
+  | ["ds", lt, ss, es, ms, tra, tdec, ra, dec] =>
+      ({ s with dss := s.dss ++ [(pF lt, zip3 (pList pF ss) (pList pF es) (pList pF ms))],
+                dirs := s.dirs ++ [zip4 (pList pF tra) (pList pF tdec) (pList pF ra) (pList pF dec)] }, "ok")
+  | ["oth", j, k, vs] => ({ s with oth := s.oth ++ [((pN j, pN k), pList pF vs)] }, "ok")
   | ["flux", g, j, fs] => ({ s with flux := s.flux ++ [((pN g, pN j), pList pF fs)] }, "ok")
   | ["table"] =>
-      match tableRaw s.grps s.dss.length s.evs s.lt s.fac with
+      match tableRawB (fun g => (s.bss[g]?).getD 128) s.grps s.dss.length s.evs s.lt s.fac with
       | none => (s, "ERR")
       | some raw =>
         let (refN, wn) := normalise (raw.map (·.2))
         let tab := (raw.map (·.1)).zip wn
         ({ s with tab := tab, refN := refN, cdf := normCdf wn },
          s!"{fListD fCand (tab.map (·.1))} {fListD fF wn} {fF refN}")
-  | ["vrange", d, lo, hi, vs] => ({ s with vr := s.vr ++ [(pN d, pF lo, pF hi, pList pF vs)] }, "ok")
+  | ["vrel", d, fld, lo, hi] => ({ s with vr := s.vr ++ [(pN d, pFld fld, pF lo, pF hi)] }, "ok")
   | ["akw", rs] =>
       (s, fListD (fun o => match o with | some (m : Int) => toString m | none => "x") (kwHistory kwCall none (pList pI rs)))
   | ["agg", cs, k] =>
@@ -91,11 +112,11 @@ def step (s : St) (line : String) : St × String :=
       | some (n, d) => (s, s!"{n};{fListD (fun kv => s!"{kv.1}={kv.2}") d}")
   | ["gen", r, n, us] =>
       let uu := pList pF us
-      let valid := validOf (s.tab.map (·.1)) s.vr
-      match generateBuf (pB r) (s.tab.map (·.1)) s.cdf valid (pN n) uu with
+      match generateEv (pB r) (s.tab.map (·.1)) s.cdf s.evData s.vr (pN n) uu with
       | none => (s, "ERR")
       | some (nsig, out, rest) =>
-        let body := String.intercalate "|" (out.map fun (d, rows) => s!"{d}={fListD toString (rows.map (·.1))}")
+        let body := String.intercalate "|" (out.map fun (d, evs) =>
+          s!"{d}={fListD (fun p => s!"{p.1.1}:{fF p.2.1}:{fF p.2.2.1}:{fF p.2.2.2}") evs}")
         (s, s!"{nsig};{uu.length - rest.length};{body}")
   | ["mu2flux", mu, phis, units] =>
       let shares := s.grps.zipIdx.flatMap fun gk =>
